@@ -1,7 +1,7 @@
 #!/usr/bin/env python3
 """Mutation self-test helper (never touches /repo or /verif build output).
 
-  tools/muttest.py <tag> <patch.diff | --py 'file:::old:::new'> <Cxx> [<Cyy> ...] [--tier quick]
+  tools/muttest.py <tag> <patch.diff | --py 'file@@@old@@@new'> <Cxx> [<Cyy> ...] [--tier quick]
 
 Creates a scratch worktree of /repo and a private copy of /verif under /tmp, applies the change,
 runs the repository's baseline tests in the worktree (must still pass), runs the given checks with
@@ -48,7 +48,7 @@ def main():
         print("worktree failed", r.stderr); return 2
     try:
         if args[0] == "--py":
-            f, old, new = args[1].split(":::")
+            f, old, new = args[1].split("@@@")
             p = wt / f
             s = p.read_text()
             if old not in s:
